@@ -66,7 +66,9 @@ Inductive outcome :=
 | OError (e : err)
 | OClosed (e : option err).           (* unwinding because the suspended coroutine is being closed *)
 
-Record st := mkSt { ds : list bool; yc : option nat }.
+Record st := mkSt { ds : list bool; yc : option nat; lastc : bool }.
+(* lastc: the value of the last `until` condition evaluated (repeat loops evaluate their
+   condition inside the scope of the body, before the body's variables are closed) *)
 
 Inductive res (A : Type) := Done (a : A) | OutOfFuel.
 Arguments Done {A} a.
@@ -101,7 +103,7 @@ Definition open_var (v : tbcv) : list event :=
 Definition next_decision (s : st) : bool * st :=
   match ds s with
   | [] => (false, s)
-  | d :: r => (d, mkSt r (yc s))
+  | d :: r => (d, mkSt r (yc s) (lastc s))
   end.
 
 (* the tail of block b after the label l, when l labels one of b's own statements *)
@@ -132,43 +134,49 @@ Definition prepend (ev : list event) (r : res rtriple) : res rtriple :=
   | Done (ev', o, s) => Done (ev ++ ev', o, s)
   end.
 
-(* run_scope: a block entered as a scope (gotos to its own labels are resolved here)
+(* run_scope: a block entered as a scope: [whole] is the block, [cur] the tail of it
+              that is executed now (gotos to whole's own labels are resolved here)
    run_block: the statements of a block in sequence
    run_stmt : one statement
-   run_loop : iterations of a while-shaped loop
+   run_loop : iterations of a loop
+   endc = true: this block is the body of a repeat loop; when control reaches its
+   end the `until` condition is evaluated there (one decision, stored in lastc).
    All four decrease the same fuel. *)
-Fixpoint run_scope (fuel : nat) (b : block) (s : st) {struct fuel} : res rtriple :=
+Definition eval_cond (endc : bool) (s : st) : st :=
+  if endc then let (d, s1) := next_decision s in mkSt (ds s1) (yc s1) d else s.
+
+Fixpoint run_scope (fuel : nat) (endc : bool) (whole cur : block) (s : st) {struct fuel} : res rtriple :=
   match fuel with
   | 0 => OutOfFuel
   | S f =>
-    bind (run_block f b s) (fun ev o s' =>
+    bind (run_block f endc cur s) (fun ev o s' =>
       match o with
       | OGoto l =>
-        match find_label l b with
-        | Some b' => prepend ev (run_scope f b' s')
+        match find_label l whole with
+        | Some b' => prepend ev (run_scope f endc whole b' s')
         | None => Done (ev, o, s')
         end
       | _ => Done (ev, o, s')
       end)
   end
-with run_block (fuel : nat) (b : block) (s : st) {struct fuel} : res rtriple :=
+with run_block (fuel : nat) (endc : bool) (b : block) (s : st) {struct fuel} : res rtriple :=
   match fuel with
   | 0 => OutOfFuel
   | S f =>
     match b with
-    | BNil => Done ([], ONormal, s)
+    | BNil => Done ([], ONormal, eval_cond endc s)
     | BRet RPlain => Done ([], OReturn, s)
     | BRet (RCall body) =>
-      bind (run_scope f body s) (fun ev o s' =>
+      bind (run_scope f false body body s) (fun ev o s' =>
         Done (ev, match fun_outcome o with ONormal => OReturn | o' => o' end, s'))
     | BCons (SLocal (VBad id)) _ => Done ([EvRaise EMissing], OError EMissing, s)
     | BCons (SLocal v) rest =>
-      bind (run_scope f rest s) (fun ev o s' =>
+      bind (run_scope f endc rest rest s) (fun ev o s' =>
         let (cev, o') := close_var v o in Done (open_var v ++ ev ++ cev, o', s'))
     | BCons st rest =>
       bind (run_stmt f st s) (fun ev o s' =>
         match o with
-        | ONormal => prepend ev (run_block f rest s')
+        | ONormal => prepend ev (run_block f endc rest s')
         | _ => Done (ev, o, s')
         end)
     end
@@ -179,7 +187,7 @@ with run_stmt (fuel : nat) (t : stmt) (s : st) {struct fuel} : res rtriple :=
   | S f =>
     match t with
     | SLocal _ => Done ([], ONormal, s)        (* handled by run_block; unreachable *)
-    | SDo b => run_scope f b s
+    | SDo b => run_scope f false b b s
     | SLoop LWhile b => run_loop f false b s
     | SLoop LRepeat b => run_loop f true b s
     | SLoop (LForIn (VBad id)) b => Done ([EvRaise EMissing], OError EMissing, s)
@@ -188,45 +196,43 @@ with run_stmt (fuel : nat) (t : stmt) (s : st) {struct fuel} : res rtriple :=
         let (cev, o') := close_var v o in Done (open_var v ++ ev ++ cev, o', s'))
     | SIf b =>
       let (d, s1) := next_decision s in
-      if d then run_scope f b s1 else Done ([], ONormal, s1)
+      if d then run_scope f false b b s1 else Done ([], ONormal, s1)
     | SBreak => Done ([], OBreak, s)
     | SGoto l => Done ([], OGoto l, s)
     | SLabel _ => Done ([], ONormal, s)
     | SMark n => Done ([EvMark n], ONormal, s)
     | SCall b =>
-      bind (run_scope f b s) (fun ev o s' => Done (ev, fun_outcome o, s'))
+      bind (run_scope f false b b s) (fun ev o s' => Done (ev, fun_outcome o, s'))
     | SPcall b =>
-      bind (run_scope f b s) (fun ev o s' =>
+      bind (run_scope f false b b s) (fun ev o s' =>
         match fun_outcome o with
         | OError e => Done (ev ++ [EvPcall (Some e)], ONormal, s')
         | OClosed e => Done (ev, OClosed e, s')
         | _ => Done (ev ++ [EvPcall None], ONormal, s')
         end)
     | SCoro b k =>
-      bind (run_scope f b (mkSt (ds s) k)) (fun ev o s' =>
-        Done (ev ++ [EvCo (err_of (fun_outcome o))], ONormal, mkSt (ds s') (yc s)))
+      bind (run_scope f false b b (mkSt (ds s) k (lastc s))) (fun ev o s' =>
+        Done (ev ++ [EvCo (err_of (fun_outcome o))], ONormal, mkSt (ds s') (yc s) (lastc s')))
     | SYield =>
       match yc s with
       | Some 0 => Done ([], OClosed None, s)
-      | Some (S j) => Done ([], ONormal, mkSt (ds s) (Some j))
+      | Some (S j) => Done ([], ONormal, mkSt (ds s) (Some j) (lastc s))
       | None => Done ([], ONormal, s)
       end
     | SRaise e => Done ([EvRaise (EUser e)], OError (EUser e), s)
     end
   end
-with run_loop (fuel : nat) (bodyfirst : bool) (b : block) (s : st) {struct fuel} : res rtriple :=
+with run_loop (fuel : nat) (rep : bool) (b : block) (s : st) {struct fuel} : res rtriple :=
   match fuel with
   | 0 => OutOfFuel
   | S f =>
-    let (d, s1) := if bodyfirst then (true, s) else next_decision s in
+    let (d, s1) := if rep then (true, s) else next_decision s in
     if d then
-      bind (run_scope f b s1) (fun ev o s' =>
+      bind (run_scope f rep b b s1) (fun ev o s' =>
         match o with
         | ONormal =>
-          if bodyfirst then
-            let (d', s2) := next_decision s' in
-            if d' then prepend ev (run_loop f true b s2) else Done (ev, ONormal, s2)
-          else prepend ev (run_loop f false b s')
+          if rep && negb (lastc s') then Done (ev, ONormal, s')
+          else prepend ev (run_loop f rep b s')
         | OBreak => Done (ev, ONormal, s')
         | _ => Done (ev, o, s')
         end)
@@ -236,7 +242,7 @@ with run_loop (fuel : nat) (bodyfirst : bool) (b : block) (s : st) {struct fuel}
 (* A whole program is a function body run under pcall on the main thread
    (the harness renders it as emit("pcall", pcall(function() b end))). *)
 Definition run_ref (fuel : nat) (b : block) (d : list bool) : res (list event * outcome) :=
-  match run_stmt fuel (SPcall b) (mkSt d None) with
+  match run_stmt fuel (SPcall b) (mkSt d None false) with
   | Done (ev, o, _) => Done (ev, o)
   | OutOfFuel => OutOfFuel
   end.
